@@ -24,18 +24,21 @@ func init() { commands["LISTENSTOP"] = runListenStop }
 type slowListener struct {
 	first  bool
 	events int
+	errors int
+	order  []uint32
 	block  time.Duration
 }
 
 func (l *slowListener) OnConnected() {}
 func (l *slowListener) OnEvent(s *types.Status) {
 	l.events++
+	l.order = append(l.order, s.Event.Index)
 	if !l.first {
 		l.first = true
 		time.Sleep(l.block) // a slow application callback
 	}
 }
-func (l *slowListener) OnError(err error) bool { return true }
+func (l *slowListener) OnError(err error) bool { l.errors++; return true }
 
 // child: start the real listener, deliver events while the first callback is still busy, signal shutdown, wait
 func runListenStop(o Opts) error {
@@ -71,6 +74,52 @@ func runListenStop(o Opts) error {
 		// (the third may still have been in the socket when it was closed)
 		if l.events < 2 {
 			fmt.Printf("LISTENSTOP: %d of the events read before the stop signal were delivered (callback busy for %v)\n", l.events, block)
+			os.Exit(4)
+		}
+	}
+	// a burst of valid events while the application's first callback is busy: they wait (in the socket) and are all
+	// delivered, once each and in order, with no error callback
+	{
+		const N = 150
+		port := freeUDPPort()
+		listen := types.ListenAddrFrom(netip.AddrFrom4([4]byte{127, 0, 0, 1}), uint16(port))
+		u := uhppote.NewUHPPOTE(types.BindAddrFrom(netip.IPv4Unspecified(), 0), types.BroadcastAddr{}, listen, 500*time.Millisecond, nil, false)
+		l := &slowListener{block: 400 * time.Millisecond}
+		q := make(chan os.Signal, 1)
+		done := make(chan error, 1)
+		go func() { done <- u.Listen(l, q) }()
+		time.Sleep(100 * time.Millisecond)
+		c, err := net.DialUDP("udp4", nil, &net.UDPAddr{IP: net.IPv4(127, 0, 0, 1), Port: port})
+		if err != nil {
+			return err
+		}
+		for i := 0; i < N; i++ {
+			ev := farmReply(append([]byte{0x17, 0x20, 0, 0, 1, 2, 3, 4, byte(i + 1), 0, 0, 0, 1}, make([]byte, 51)...))
+			c.Write(ev)
+		}
+		deadline := time.Now().Add(5 * time.Second)
+		for time.Now().Before(deadline) {
+			time.Sleep(100 * time.Millisecond)
+			if l.events+l.errors >= N {
+				break
+			}
+		}
+		q <- syscall.SIGINT
+		select {
+		case <-done:
+		case <-time.After(3 * time.Second):
+			fmt.Println("LISTENSTOP: Listen did not return within 3 s of the stop signal after a burst")
+			os.Exit(3)
+		}
+		c.Close()
+		inOrder := len(l.order) == N
+		for i, ix := range l.order {
+			if ix != uint32(i+1) {
+				inOrder = false
+			}
+		}
+		if l.events != N || l.errors != 0 || !inOrder {
+			fmt.Printf("LISTENSTOP: of %d valid events sent while the first callback was busy, %d were delivered (in order: %v) and %d error callbacks were made\n", N, l.events, inOrder, l.errors)
 			os.Exit(4)
 		}
 	}
